@@ -146,7 +146,7 @@ func (q *qgen) addr(all []string) string {
 	x := g.rng.Intn(100)
 	for _, t := range live {
 		if t[0] == 'L' && g.chance(15) { // long addresses around: ask for their relatives (shared prefix / suffix) too
-			return g.pick(real.LongTokens...)
+			return g.pick(real.GenLongTokens...)
 		}
 	}
 	switch {
@@ -164,7 +164,7 @@ func (q *qgen) addr(all []string) string {
 	case x < 88:
 		return g.pick(real.ModuleTokens...)
 	case x < 92:
-		return g.pick(real.LongTokens...)
+		return g.pick(real.GenLongTokens...)
 	case x < 96:
 		return "X"
 	}
